@@ -199,7 +199,11 @@ class Lifecycle:
                     continue
                 sp = f.span(self.tr.call_term(cb)["span"]).root
                 if not sp.within(br["future_lo"], br["future_hi"]):
-                    self.dsl_ok = False
+                    # a branch written as a bare variable (`r = idle, if enabled => ..`) polls a future built elsewhere
+                    # (handed to a spliced-in helper): there is no call inside the branch expression to compare with
+                    import re
+                    if not re.fullmatch(r"[A-Za-z_][A-Za-z0-9_]*", (br.get("future") or "").strip()):
+                        self.dsl_ok = False
 
     # ---- awaits --------------------------------------------------------------------------
     def _find_awaits(self):
@@ -543,7 +547,19 @@ def find_idle_local(lc):
                     found.add(pl["l"])
     if len(found) != 1:
         return None, "cannot map the precondition `%s` to one local (%s)" % (br["cond"], sorted(found))
-    return found.pop(), None
+    l = found.pop()
+    # the select! may sit in a spliced-in helper that receives the flag by value: its parameter is a per-round copy of the
+    # caller's variable, which is the one that carries the state from round to round
+    for _ in range(4):
+        ds = [(blk.idx, st) for blk in b.blocks for st in blk.stmts if st["k"] == "assign" and not st["place"]["p"] and st["place"]["l"] == l]
+        other = any(blk.term["k"] == "call" and not blk.term["dest"]["p"] and blk.term["dest"]["l"] == l for blk in b.blocks)
+        if len(ds) != 1 or other or "use" not in ds[0][1]["rv"]:
+            break
+        src = ds[0][1]["rv"]["use"].get("copy") or ds[0][1]["rv"]["use"].get("move")
+        if src is None or src["p"] or f.ty(b.locals[src["l"]]["ty"]).k != "bool":
+            break
+        l = src["l"]
+    return l, None
 
 
 
